@@ -74,12 +74,16 @@ CLAIMS = {
         technique="alias / loop-variance analysis + write-back pairing + finite-domain orientation + table extraction",
         design="§3 C06"),
     "C08": dict(
-        text="Narrow: antisymmetry of SimulatedOrder.profit decided by path-wise evaluation over the finite "
-             "domain market kind x runner result x dead-heat class x ordering(line, result) with the returned "
-             "expressions normalised to polynomials (LAY == -BACK), zero for void cases; summary = sum over the "
-             "client's matched orders, commission only on a net win; results assigned to every order. Not "
-             "decided: the payout formulas themselves.",
-        technique="parity analysis: finite truth table over CFG paths + polynomial normal form of the returned expressions",
+        text="Partial: SimulatedOrder.profit is evaluated path by path over the finite domain market kind x runner "
+             "result x dead-heat class x ordering(line, result); the returned expressions are normalised to "
+             "polynomials in matched size S, average price P, dead-heat count N, each-way divisor D. Decided: "
+             "LAY == -BACK on every case; the BACK polynomial equals the exchange's settlement rule on every case "
+             "(S(P-1), -S, 0, dead-heat split (S/N)(P-1) - S(N-1)/N, each-way S(P-1)+S(P-1)/D, S(P-1)/D - S, -2S, "
+             "even money on lines, 0 on the line); every term carries S; summary = sum over the client's matched "
+             "orders, commission only on a net win; results assigned to every order. Not decided: the numeric "
+             "effect of rounding to 2 dp; whether the fills fed in are right (C04/C05).",
+        technique="symbolic settlement table: finite truth table over CFG paths + polynomial (Laurent) normal form of the "
+                  "returned expressions compared with the rule table; parity (odd-function) analysis",
         design="§3 C08"),
     "C11": dict(
         text="Partial (adoption / lookup / status mapping): key agreement lookup vs adoption, adoption only on "
